@@ -27,6 +27,7 @@ UFUNS = {
     "levels30": (["int"], "bool"),   # "the structure needs at most 30 bracket levels under FCFS" (property quantifier)
     "opench": (["int"], "int"),      # OPEN[l] as code point
     "closech": (["int"], "int"),
+    "taken": (["int", "int"], "bool"),
 }
 
 
@@ -71,19 +72,15 @@ def regions_ok(R, N):
 
 @spec
 def FC_def(R):
-    """characteristic property of the first-come-first-served level function (exists uniquely by recursion on a)"""
-    return forall(lambda a: implies(0 <= a and a < len(R),
-                                    FC(a) >= 0
-                                    and forall(lambda b: implies(0 <= b and b < a and crossing(R[a][0], R[a][1], R[b][0], R[b][1]), FC(b) != FC(a)))
-                                    and forall(lambda l: implies(0 <= l and l < FC(a),
-                                                                 exists(lambda b: 0 <= b and b < a and crossing(R[a][0], R[a][1], R[b][0], R[b][1]) and FC(b) == l)))))
+    """characteristic property of the first-come-first-served level function (exists uniquely by recursion on a);
+    taken(a, l) abbreviates: some earlier stem crossing stem a sits on level l"""
+    return (forall(lambda a, l: taken(a, l) == exists(lambda b: 0 <= b and b < a and crossing(R[a][0], R[a][1], R[b][0], R[b][1]) and FC(b) == l),
+                   pats=["taken(a, l)"])
+            and forall(lambda a: implies(0 <= a and a < len(R), FC(a) >= 0 and not taken(a, FC(a))), pats=["FC(a)"])
+            and forall(lambda a, l: implies(0 <= a and a < len(R) and 0 <= l and l < FC(a), taken(a, l)), pats=["taken(a, l)"]))
 
 
 LEMMAS = {
-    # instance of FC_def (proved from it by SMT)
-    "FC_below": {"kind": "smt", "params": ["R", "a", "lv"], "shapes": ["list[tuple[int,int,int]]", "int", "int"],
-                 "requires": ["FC_def(R)"],
-                 "ensures": ["implies(0 <= a and a < len(R) and 0 <= lv and lv < FC(a), exists(lambda b: 0 <= b and b < a and crossing(R[a][0], R[a][1], R[b][0], R[b][1]) and FC(b) == lv))"]},
     "FC_definition": {"kind": "definition", "params": ["R"], "ensures": ["FC_def(R)"]},
     "levels30_definition": {"kind": "definition", "params": ["s", "R"],
                             "ensures": ["implies(levels30(s), forall(lambda a: implies(0 <= a and a < len(R), FC(a) < 30)))"]},
@@ -138,7 +135,7 @@ class fcfs:
     ghost = [
         {"when": "after", "at": "regions =", "do": ["let R = regions", "use FC_definition(R)", "use levels30_definition(self, R)"]},
         {"when": "before", "at": "order = next(", "label": "level-free", "do": ["assert 0 <= FC(i) and FC(i) < 30 and available[FC(i)]",
-                "forall lv | use FC_below(R, i, lv) | assert implies(0 <= lv and lv < FC(i), not available[lv])"]},
+                "forall lv | assert implies(0 <= lv and lv < FC(i), taken(i, lv) and not available[lv])"]},
         {"when": "after", "at": "order = next(", "label": "next-is-FC", "do": ["assert order == FC(i)"]},
     ]
 
